@@ -54,10 +54,6 @@ Proof.
   destruct (take_live _ _) as [a b] eqn:E. destruct (lenN a <? _); auto. unfold chain. simpl.
   destruct (take_live_spec _ _ _ _ E) as [E1 _]. rewrite <- app_assoc, E1. reflexivity.
 Qed.
-Lemma may_commit_hold c st : s_hold (may_commit c st) = s_hold st.
-Proof.
-  unfold may_commit. destruct (_ =? 0); auto. destruct (take_live _ _). destruct (_ <? _); reflexivity.
-Qed.
 Lemma may_commit_ghost c st : s_ghost (may_commit c st) = s_ghost st.
 Proof.
   unfold may_commit. destruct (_ =? 0); auto. destruct (take_live _ _). destruct (_ <? _); reflexivity.
